@@ -16,9 +16,8 @@ Theorem C01_compose_roundtrip :
 Proof. exact deser_compose_ser. Qed.
 Print Assumptions C01_compose_roundtrip.
 
-(* release / base product / variant forest: decided by the roundtrip_ci correspondence and the implementation-side
-   oracle (every documented field, parent/child structure, paths, byte-identical second write). The Coq statement
-   over whole forests - load_ci (dump_ci x) = Ok (norm x) by induction on the variant tree - is not yet proved (partial). *)
+(* release / base product / variant forest: section theorems first, then (end of this file) the whole forest of any depth
+   and the whole document: load_ci (dump_ci x) = Ok x with the path tables as written, and the second write is the same document. *)
 
 (* the release and base-product sections *)
 From PM Require Import Proofs.ReleaseRoundtrip Model.ComposeInfo.
@@ -52,3 +51,46 @@ Theorem C01_written_paths_are_the_truthy_entries_of_the_variants_arches :
   if existsb (fun p => str_eqb (fst p) arch && str_eqb (snd p) name) (pairs_of_arches archs) then path_val paths arch name else None.
 Proof. exact ser_paths_tab_get. Qed.
 Print Assumptions C01_written_paths_are_the_truthy_entries_of_the_variants_arches.
+
+(* ---- the variant forest, any depth, and the whole document *)
+From PM Require Import Model.Variants Proofs.KeySort Proofs.LoadValid Proofs.ForestFlat Proofs.ForestRoundtrip Proofs.CiRoundtrip.
+
+(* the writer: the flat "variants" mapping holds exactly one entry per variant of the forest, keyed by its UID, carrying
+   id/uid/name/type/sorted arches/(release)/paths/child ids, and every variant passed its validators under its parent *)
+Theorem C01_forest_written_exactly :
+  forall vs d, ser_variants vs = Ok (PDict d) -> NoDup (forest_uids (sort_keys vs)) ->
+  d = flat_list (sort_keys vs) /\ children_valid None (sort_keys vs) /\ validate_container vs = Ok tt.
+Proof. exact ser_variants_spec. Qed.
+Print Assumptions C01_forest_written_exactly.
+
+(* the reader on what the writer produced: the same forest - every field, the parent/child structure at every depth, the
+   release of every layered-product variant - with each path table replaced by exactly what was written for it (wp) *)
+Theorem C01_forest_roundtrip :
+  forall vs d payload, forest_normal vs -> NoDup (forest_uids vs) ->
+  ser_variants vs = Ok (PDict d) -> dget payload (F"variants") = Ok (PDict d) ->
+  deser_variants VERSION payload = Ok (wp_list vs).
+Proof. exact forest_roundtrip. Qed.
+Print Assumptions C01_forest_roundtrip.
+
+(* the whole document: header, compose, release, base product (when layered) and the forest *)
+Theorem C01_document_roundtrip :
+  forall x doc, ci_normal x -> NoDup (forest_uids (ci_variants x)) -> dump_ci x = Ok doc -> load_ci doc = Ok (wp_ci x).
+Proof. exact ci_roundtrip. Qed.
+Print Assumptions C01_document_roundtrip.
+
+(* writing the re-read object gives the same document (hence the same bytes: print_json is a function of the document),
+   and the re-read forest is in normal form again, so the cycle can be repeated *)
+Theorem C01_second_write_identical :
+  forall x, forest_all node_normal (ci_variants x) -> dump_ci (wp_ci x) = dump_ci x.
+Proof. exact ci_second_write. Qed.
+Print Assumptions C01_second_write_identical.
+
+Theorem C01_reread_forest_is_normal : forall vs, forest_normal vs -> forest_normal (wp_list vs).
+Proof. exact forest_normal_wp. Qed.
+Print Assumptions C01_reread_forest_is_normal.
+
+(* the hypotheses are satisfiable by a forest of depth 3 with a layered-product variant, a base product and path tables *)
+Theorem C01_roundtrip_hypotheses_reachable :
+  ci_normal ex_ci /\ NoDup (forest_uids (ci_variants ex_ci)) /\ exists doc, dump_ci ex_ci = Ok doc.
+Proof. exact ci_roundtrip_nonvacuous. Qed.
+Print Assumptions C01_roundtrip_hypotheses_reachable.
